@@ -250,7 +250,9 @@ ApplyVector(n, s) ==
     [] n = "FLOATVECTOR.LENGTH" -> IF Has(s, "fvec", 1) THEN Fired(PushOn(s, "int", Len(s.fvec[1]))) ELSE Unfired(s)
     [] n = "FLOATVECTOR.MEAN" -> IF ~Has(s, "fvec", 1) THEN Unfired(s)
                                  ELSE LET sm == FloatSum(s.fvec[1]) IN
-                                      IF sm.t = "v" THEN PushFloatRes(s, FDiv(sm.b, FFromInt(Len(s.fvec[1]))))
+                                      \* (the sign of a zero sum, hence of a zero mean, is not pinned)
+                                      IF sm.t = "v" /\ FIsZero(sm.b) /\ Len(s.fvec[1]) > 0 THEN PushFloatSum(s, sm)
+                                      ELSE IF sm.t = "v" THEN PushFloatRes(s, FDiv(sm.b, FFromInt(Len(s.fvec[1]))))
                                       ELSE PushFloatRes(s, sm)
     [] n = "FLOATVECTOR.ONES"   -> VecConst(s, "fvec", FOne)
     [] n = "FLOATVECTOR.ZEROS"  -> VecConst(s, "fvec", FPosZero)
